@@ -96,12 +96,30 @@ def gen_random(rng, tier, ctx):
                 catch[rng.randrange(n)].append(rng.randrange(n))
             case = (n, 0, [c19._dedup(l) for l in edges], [c19._dedup(l) for l in catch])
         cases.append(case)
-    return cases
+    # the same kinds of graphs with the nodes added in another order, and graphs that are asked, grow by catch edges and are asked again
+    extra = []
+    for case in cases[::3]:
+        n = case[0]
+        order = list(range(n))
+        rng.shuffle(order)
+        extra.append(tuple(case) + (order,))
+    for case in cases[1::7]:
+        n = case[0]
+        late = [(rng.randrange(n), rng.randrange(n)) for _ in range(rng.randint(1, 3))]
+        extra.append(tuple(case) + (None, late))
+    # two deferred dominators in a chain, the deeper node added to the graph before the other
+    extra.append((5, 0, [[1, 2], [2], [3, 4], [4], []], [[], [3], [], [], []], [0, 1, 2, 4, 3]))
+    extra.append((4, 0, [[1], [2], [3], []], [[] for _ in range(4)], None, [(0, 3)]))
+    return cases + extra
 
 
 def impl(case):
     g, nodes = c19.build(case)
     idx = {x: i for i, x in enumerate(nodes)}
+    if len(case) > 5:                         # the graph is asked once, then grows by catch edges, and is asked again
+        g.immediate_dominators()
+        for a, b in case[5]:
+            g.add_catch_edge(nodes[a], nodes[b])
     dom = g.immediate_dominators()
     out = []
     for x in nodes:
@@ -115,8 +133,9 @@ def impl(case):
 
 
 def all_sucs(case):
-    n, entry, edges, catch = case
-    return [c19._dedup(list(edges[i]) + list(catch[i])) for i in range(n)]
+    n, entry, edges, catch = case[:4]
+    late = case[5] if len(case) > 5 else []
+    return [c19._dedup(list(edges[i]) + list(catch[i]) + [b for a, b in late if a == i]) for i in range(n)]
 
 
 def coq_input(case):
